@@ -14,6 +14,8 @@ Clauses (ids):
   sched-size_exact          at every quiescent point size == number of cached datapoints
   sched-bound               at every quiescent point size <= hard limit
   sched-no_empty_entries    at every quiescent point no metric maps to an empty dict
+  sched-undrainable         repeated draining hands out everything: drain_metric() never reports an
+                            empty cache while datapoints are held
   sched-paused-at-quiescence  (C09) after everything was drained, cacheTooFull is not left set with
                             the cache below its low watermark
 """
@@ -56,18 +58,19 @@ def run(strat, mx, flow, hist, inject, prefill=0):
   drained = []
   accepted = []          # (m, ts, v, order)
   steps_per_store = []
-  fail = [None]
+  fail = [None]          # first failure that ends the run (an exception)
+  found = {}             # every failure kind seen in this run
 
   def quiescent(where):
     if fail[0]:
       return
     n = count(c)
     if c.size != n:
-      fail[0] = ('sched-size_exact', '%s: size=%r but %d datapoints are cached' % (where, c.size, n))
-    elif settings.CACHE_SIZE_HARD_MAX != float('inf') and c.size > settings.CACHE_SIZE_HARD_MAX:
-      fail[0] = ('sched-bound', '%s: size=%r exceeds the hard limit %r' % (where, c.size, settings.CACHE_SIZE_HARD_MAX))
-    elif any(len(v) == 0 for v in dict.values(c)):
-      fail[0] = ('sched-no_empty_entries', '%s: %r' % (where, {k: dict(v) for k, v in dict.items(c)}))
+      found.setdefault('sched-size_exact', '%s: size=%r but %d datapoints are cached' % (where, c.size, n))
+    if settings.CACHE_SIZE_HARD_MAX != float('inf') and max(c.size, n) > settings.CACHE_SIZE_HARD_MAX:
+      found.setdefault('sched-bound', '%s: size=%r (%d datapoints cached) exceeds the hard limit %r' % (where, c.size, n, settings.CACHE_SIZE_HARD_MAX))
+    if any(len(v) == 0 for v in dict.values(c)):
+      found.setdefault('sched-no_empty_entries', '%s: %r' % (where, {k: dict(v) for k, v in dict.items(c)}))
 
   def drain(where):
     try:
@@ -135,26 +138,33 @@ def run(strat, mx, flow, hist, inject, prefill=0):
     steps_per_store.append(st['n'])
     quiescent('after operation #%d' % idx)
     if fail[0]:
-      return fail[0], steps_per_store
+      found.setdefault(fail[0][0], fail[0][1])
+      return found, steps_per_store
   # the writer finishes the job
   for _ in range(50):
     if not drain('final drains'):
       break
   quiescent('after the final drains')
   if fail[0]:
-    return fail[0], steps_per_store
+    found.setdefault(fail[0][0], fail[0][1])
+    return found, steps_per_store
+  if count(c):
+    # the strategy says "nothing to do" although datapoints are cached (no timestamp lag here):
+    # the writer can never write them out
+    found.setdefault('sched-undrainable', 'drain_metric() returns (None, []) although %r is still cached' % (
+      {k: dict(v) for k, v in dict.items(c)},))
   left = [(m, ts, v) for m, d in dict.items(c) for ts, v in d.items()]
   out = drained + left
   if len(out) != len(set(out)):
-    return ('sched-conservation', 'a datapoint was handed out twice: %r' % (sorted(out),)), steps_per_store
+    found.setdefault('sched-conservation', 'a datapoint was handed out twice: %r' % (sorted(out),))
   vals = set(v for (_, _, v) in out)
   for (m, ts, v, order) in accepted:
     if v not in vals and not any(m2 == m and ts2 == ts and o2 > order for (m2, ts2, _, o2) in accepted):
-      return ('sched-conservation', 'accepted datapoint %r of %r @%r was never handed out (drained %r, left %r)' % (v, m, ts, drained, left)), steps_per_store
+      found.setdefault('sched-conservation', 'accepted datapoint %r of %r @%r was never handed out (drained %r, left %r)' % (v, m, ts, drained, left))
   if state.cacheTooFull and settings.CACHE_SIZE_HARD_MAX != float('inf') and c.size < settings.CACHE_SIZE_LOW_WATERMARK:
-    return ('sched-paused-at-quiescence', 'everything drained (size %r < low watermark %r) but cacheTooFull is still set: receivers stay paused' % (
-      c.size, settings.CACHE_SIZE_LOW_WATERMARK)), steps_per_store
-  return None, steps_per_store
+    found.setdefault('sched-paused-at-quiescence', 'everything drained (size %r < low watermark %r) but cacheTooFull is still set: receivers stay paused' % (
+      c.size, settings.CACHE_SIZE_LOW_WATERMARK))
+  return found, steps_per_store
 
 
 def work(job):
@@ -173,8 +183,9 @@ def work(job):
             r2, _ = run(strat, mx, flow, hist, (idx, step, nd), prefill)
             evals += 1
             cands.append((r2, (idx, step, nd)))
-      for (rr, inj) in cands:
-        if rr and (only is None or rr[0] in only) and rr[0] not in fails:
+      for (found_here, inj) in cands:
+       for rr in (found_here or {}).items():
+        if (only is None or rr[0] in only) and rr[0] not in fails:
           fails[rr[0]] = {'id': rr[0], 'what': rr[1], 'strategy': strat, 'MAX_CACHE_SIZE': mx, 'USE_FLOW_CONTROL': flow,
                           'prefilled_datapoints': prefill, 'stores': [list(h) for h in hist],
                           'other_thread_runs_at': None if inj is None else {'operation_index': inj[0], 'line_step': inj[1], 'drains_or_store_choice': inj[2]}}
